@@ -99,6 +99,39 @@ def gen_script(rng, np, nphases, nam, nx, big=False, bipartite=False):
     return lines
 
 
+SMALL = [0, 1, 64, 1000, 4000]
+LARGE = [300000, 1 << 20]
+PATTERNS = ['sLs', 'sLss', 'LsLs', 'ssLs', 'sLsLs', 'sLLs', 'LssLs', 'sLsssL']
+
+
+def gen_burst(rng, np, xid, cap):
+    """One phase: 3-6 put (or get) of mixed small/large sizes between one pair, all issued back to back by the calling rank
+    (offers collected first with `pollhold`, then `issue`), so that they sit in consecutive dynamic slots and the small
+    ones complete in the same MPI_Testsome while a large one between them is still pending: the swap-with-last removal
+    then has to fill a hole from a tail that is itself complete.  Returns (lines, next transfer id)."""
+    owner = rng.below(np)
+    peer = (owner + 1 + rng.below(np - 1)) % np
+    m = rng.choice(['put', 'put', 'get'])
+    pat = rng.choice([p for p in PATTERNS if len(p) <= max(3, min(cap, 6))] or ['sLs'])
+    caller = owner if m == 'put' else peer
+    lines = []
+    for ch in pat:
+        size = rng.choice(SMALL) if ch == 's' else rng.choice(LARGE)
+        lines.append('xfer %d %s %d %d %d 0' % (xid, m, owner, peer, size))
+        xid += 1
+    lines += ['barrier', 'pollhold %d 600' % caller, 'barrier', 'issue %d' % caller, 'drain']
+    return lines, xid
+
+
+def add_bursts(rng, np, lines, nb, cap):
+    xid = 1 + max([int(l.split()[1]) for l in lines if l.startswith('xfer ')] + [-1])
+    out = list(lines)
+    for _ in range(nb):
+        b, xid = gen_burst(rng, np, xid, cap)
+        out += b
+    return out
+
+
 def _reorder_seq(body):
     """Active messages of one (src,dst,tag) must be sent in sequence order: re-sort them inside their own positions."""
     pos = {}
@@ -123,6 +156,7 @@ def gen_tags(rng):
 
 
 SETTINGS_QUICK = [(1, 1, 1, 1), (3, 2, 2, 1), (4, 1, 3, 2), (2, 2, 30, 15), (5, 3, 4, 4), (8, 2, 1, 1)]
+BURST_SETTINGS = [(3, 2, 6, 3), (2, 2, 30, 15), (5, 3, 4, 4), (4, 1, 5, 2), (3, 3, 8, 8)]
 SETTINGS_MORE = [(1, 1, 2, 1), (2, 1, 1, 1), (3, 3, 3, 3), (6, 4, 5, 2), (10, 1, 8, 1), (20, 5, 30, 15), (7, 7, 2, 2), (3, 1, 6, 3)]
 
 
@@ -274,6 +308,15 @@ def evaluate(ctx, res, exe, np, setting, lines, tag, dist, shrink=True, stuck=45
         return False
     if stuck:
         fails0, _ = oracle(lines, np, [p[2] for p in parts])
+        if shrink:
+            def failing(ls):
+                if not ls or ls[-1] != 'drain':
+                    ls = ls + ['drain']
+                rr = run_case(ctx, exe, np, setting, ls, tag + '-s', timeout=200, stuck=8)
+                pp = [split_rank(t) for t in rr['ranks']]
+                return any(e[1] == 'stuck' for q in pp for e in q[2])
+            small = pv.ddmin(lines, failing, max_tests=5)
+            case = {'np': np, 'setting': list(setting), 'script': small, 'stuck': 10}
         res.violations.append({'key': 'stuck:' + hashlib.md5('\n'.join(lines).encode()).hexdigest()[:10],
                                'what': 'messages/transfers addressed to a rank never arrive or complete (no request completed for %d s): %s ; first missing: %s' % (
                                    stuck_s, ' || '.join(' '.join(e[2:])[:300] for e in stuck[:2]), (fails0 or ['?'])[0][:200]),
@@ -358,8 +401,11 @@ def run(ctx, res, cases=None):
             for i, st in enumerate(sets):
                 g = rng.fork(i)
                 np = 2 if i < 2 else 3
-                ls = gen_script(g, np, 2, 5, 5, bipartite=(st[3] >= st[2])) + [gen_tags(g)]
+                ls = add_bursts(g, np, gen_script(g, np, 2, 5, 5, bipartite=(st[3] >= st[2])), 2, st[2]) + [gen_tags(g)]
                 todo.append((np, st, ls, 'g%d' % i, 45))
+            g = rng.fork(77)
+            st = BURST_SETTINGS[ctx.seed % len(BURST_SETTINGS)]
+            todo.append((2, st, add_bursts(g, 2, [], 5, st[2]), 'b0', 45))
         else:
             sets = SETTINGS_QUICK + SETTINGS_MORE
             k = 0
@@ -367,7 +413,7 @@ def run(ctx, res, cases=None):
                 for st in sets:
                     g = rng.fork(1000 + k)
                     np = 2 + (k % 3)
-                    ls = gen_script(g, np, g.range(2, 4), 8, 9, big=(k % 5 == 0), bipartite=(st[3] >= st[2])) + [gen_tags(g)]
+                    ls = add_bursts(g, np, gen_script(g, np, g.range(2, 4), 8, 9, big=(k % 5 == 0), bipartite=(st[3] >= st[2])), 3, st[2]) + [gen_tags(g)]
                     todo.append((np, st, ls, 'g%d' % k, 45))
                     k += 1
     else:
@@ -379,6 +425,8 @@ def run(ctx, res, cases=None):
             nclean += 1
         if len([v for v in res.violations if not v['key'].startswith('F')]) + len(res.disagreements) >= 3:
             break
+        if any(v['key'].startswith('stuck:') for v in res.violations):
+            break   # a lost completion: one minimised failing script is enough, every further one costs a time-out
     res.rule = ('corpus scripts first, then generated scripts: 2-4 MPI ranks, phases of bursts of active messages (3 stream tags, 0..16384 bytes, messages above the eager '
                 'limit from one sender per phase) and put/get transfers of 0..4 MiB (one primitive per ordered pair and phase), random polls, closed by a drain; request parameters '
                 '(posted, tested, dynamic, dynamic_recv) from (1,1,1,1) upward; distinct = distinct (ranks, setting, script); non-trivial = at least one MPI_Testsome pass completed a request')
